@@ -42,6 +42,8 @@ type Profile struct {
 	OnCompleteFill int
 	LateAdd        bool
 	Epilogues      []string
+	Faults         int // percent of scenarios with one filler/extender fault
+	PtyRowsMax     int
 }
 
 func pct(t *rapid.T, p int, label string) bool {
@@ -163,7 +165,11 @@ func genScenario(t *rapid.T, prof *Profile) *engine.Scenario {
 		sc.Cfg.Width = rapid.IntRange(3, 12).Draw(t, "width")
 	}
 	if pct(t, prof.Pty, "pty") {
-		sc.Cfg.PtyRows = rapid.IntRange(2, 12).Draw(t, "ptyrows")
+		hi := 12
+		if prof.PtyRowsMax > 0 {
+			hi = prof.PtyRowsMax
+		}
+		sc.Cfg.PtyRows = rapid.IntRange(2, hi).Draw(t, "ptyrows")
 		sc.Cfg.PtyCols = rapid.IntRange(40, 100).Draw(t, "ptycols")
 	}
 	sc.Cfg.Delay = pct(t, prof.Delay, "delay")
@@ -171,6 +177,15 @@ func genScenario(t *rapid.T, prof *Profile) *engine.Scenario {
 	succOf := map[int]bool{}
 	for i := 0; i < nb; i++ {
 		sc.Bars = append(sc.Bars, genBarSpec(t, prof, i, succOf))
+	}
+	if pct(t, prof.Faults, "fault") {
+		i := rapid.IntRange(0, nb-1).Draw(t, "faultbar")
+		k := rapid.IntRange(1, 6).Draw(t, "faultk")
+		if rapid.IntRange(0, 3).Draw(t, "faultext") == 0 {
+			sc.Bars[i].ExtErrAt = k
+		} else {
+			sc.Bars[i].FillErrAt = k
+		}
 	}
 	eps := prof.Epilogues
 	if len(eps) == 0 {
